@@ -299,6 +299,19 @@ impl C13 {
         }) {
           out.fail(env, viol("smonth", "listed_day_differs_from_constructed", case, &k, format!("{} in month {} of sexagenary year {} .get_days()", fmt_ymd(dt), j, y), built, listed));
         }
+        // the same month reached from one of its days lists the same days
+        if let Some(mid) = exp.get(exp.len() / 2) {
+          match guard(|| tyme4rs::tyme::solar::SolarDay::from_ymd(mid.0 as isize, mid.1 as usize, mid.2 as usize).get_sixty_cycle_day().get_sixty_cycle_month().get_days().iter().map(|d| ymd(&d.get_solar_day())).collect::<Vec<_>>()) {
+            Ok(via) => {
+              if via != exp {
+                out.fail(env, viol("smonth", "days_of_month_reached_from_a_day", case, &k, format!("{} .get_sixty_cycle_day().get_sixty_cycle_month().get_days()", fmt_ymd(*mid)), format!("{} days {}..{}", exp.len(), c.fmt(i0), c.fmt(i1 - 1)), format!("{} days {:?}..{:?}", via.len(), via.first().map(|d| fmt_ymd(*d)), via.last().map(|d| fmt_ymd(*d)))));
+              }
+            }
+            Err(e) => {
+              out.fail(env, viol("smonth", "get_days_panics", case, &k, format!("month of {} reached from the day", fmt_ymd(*mid)), format!("{}..{}", c.fmt(i0), c.fmt(i1 - 1)), e));
+            }
+          }
+        }
         if got != exp {
           out.fail(env, viol("smonth", "days", case, &k, format!("month {} of sexagenary year {} .get_days()", j, y), format!("{} days {}..{}", exp.len(), c.fmt(i0), c.fmt(i1 - 1)), format!("{} days {:?}..{:?}", got.len(), got.first().map(|d| fmt_ymd(*d)), got.last().map(|d| fmt_ymd(*d)))));
         }
